@@ -73,6 +73,15 @@ pub fn write_spectrum<W, S: State>(
 where
     W: io::Write,
 {
+    // The standard formatting machinery supports at most `u16::MAX` digits of precision, and
+    // panics beyond that
+    if precision > usize::from(u16::MAX) {
+        return Err(io::Error::new(
+            io::ErrorKind::InvalidInput,
+            format!("precision {precision} exceeds maximum {}", u16::MAX),
+        ));
+    }
+
     let header = Header::new(spectrum.array.shape().clone());
     header.write(writer)?;
 
